@@ -92,6 +92,9 @@ func (p *pool) modeFor(what string, key uint64, idx int) mode {
 		}
 		return mFast
 	default: // mixed
+		if h%16 == 7 && idx < 2 {
+			return mNever // two nodes of the same call never answer
+		}
 		switch (h + uint64(idx)*3) % 16 {
 		case 0:
 			return mLate
